@@ -1,5 +1,5 @@
 #!/usr/bin/env python3
-"""mutation_run.py <out.tsv> [--props C01,C02] [--per N] [--offset K] [--phase checks|tests]
+"""mutation_run.py <out.tsv> [--props C01,C02] [--per N] [--offset K] [--phase checks|recheck|tests]
 
 Development tool (not a registered check): measures which first-order syntactic mutants of the code each
 property is anchored in are reported by that property's quick check. For every selected mutant (bin/vmutate;
@@ -57,6 +57,10 @@ TARGETS = {
                    ('functions/expr_bridge.go', 'CompileExpressionWithStreamSQLFunctions,EvaluateExpression'),
                    ('stream/processor_field.go', 'injectGroupKeyExprs')]),
 }
+# checks that share anchored code with a property (a mutant in shared code counts as reported if any of them reports it)
+RELATED = {'C01': ['C02'], 'C02': ['C01', 'C08', 'C10'], 'C08': ['C02'], 'C10': ['C02'], 'C04': ['C09'], 'C09': ['C04'], 'C03': ['C07'], 'C07': ['C03'],
+           'C05': ['C13', 'C06'], 'C13': ['C05'], 'C06': ['C12', 'C13'], 'C12': ['C06'], 'C18': ['C19'], 'C19': ['C18'], 'C20': ['C14', 'C05'], 'C14': ['C20'],
+           'C11': ['C07', 'C06'], 'C15': [], 'C16': [], 'C17': []}
 ENV = dict(os.environ, GOFLAGS='-mod=mod', GOPROXY='off', GOSUMDB='off', GOTOOLCHAIN='local')
 
 def sh(cmd, cwd=None, timeout=1800, env=None):
@@ -88,7 +92,33 @@ def main():
             f = l.rstrip('\n').split('\t')
             if len(f) > 5 and f[5] == 'NOT-KILLED-BY-CHECK' and phase == 'tests':
                 pending.append(f)
+            elif len(f) > 5 and f[5].startswith('killed-by-related') and phase == 'tests':
+                pending = [x for x in pending if x[:3] != f[:3]]
             elif len(f) > 4: done.add((f[0], f[1], f[2]))
+    if phase == 'recheck':
+        # NOT-KILLED-BY-CHECK entries are run against the related checks
+        todo = []
+        for l in open(out):
+            f = l.rstrip('\n').split('\t')
+            if len(f) > 5 and f[5] == 'NOT-KILLED-BY-CHECK': todo.append(f)
+        try:
+            with open(out, 'a') as log:
+                for f in todo:
+                    prop, file, n, line, desc = f[:5]
+                    funcs = dict(TARGETS[prop][1])[file]
+                    sh(f'git -C {wt} checkout -q -- . ; git -C {wt} clean -fdq')
+                    sh(f'/verif/bin/vmutate -file {wt}/{file} -funcs "{funcs}" -apply {n} -out {wt}/{file}')
+                    for c in RELATED.get(prop, []):
+                        env = dict(ENV, VERIF_REPO=wt, VERIF_OUT=mx + '/out')
+                        rc, o = sh(f'/verif/bin/check {c} quick', env=env, timeout=1500)
+                        if rc == 1 and 'VIOLATION' in o:
+                            sig = [x for x in o.splitlines() if 'signature:' in x]
+                            log.write('\t'.join([prop, file, n, line, desc, 'killed-by-related:' + c, sig[0].strip()[:160] if sig else '', 'recheck']) + '\n'); log.flush()
+                            break
+        finally:
+            sh(f'git -C /repo worktree remove --force {wt}')
+            shutil.rmtree(mx, ignore_errors=True)
+        return
     if phase == 'tests':
         try:
             with open(out, 'a') as log:
